@@ -74,3 +74,27 @@ func init() {
 	extraRules["C11"] = func(c *Ctx) { WriterDiscipline(c, "default", "C11") }
 	extraRules["C12"] = func(c *Ctx) { WriterDiscipline(c, "default", "C12") }
 }
+
+func init() {
+	Register(&Property{ID: "C03", Trusted: commonTrusted, RuleText: "SH-FLOW / EFX-READSET / EFX-RO / SH-LEN", Explanation: "encodings (structure)", Run: func(c *Ctx) {
+		p := c.Prog("default")
+		if p == nil {
+			return
+		}
+		specs, reads := FlowSpecs(c, "C03")
+		CheckFlow(c, "C03", specs, reads)
+		an := efx.NewAnalyzer(p)
+		// encoding never changes the value encoded
+		for _, it := range c.implTypes(p) {
+			if it.Kind == "xof" {
+				continue
+			}
+			for _, m := range []string{"MarshalBinary", "MarshalTo", "MarshalSize", "String", "Equal"} {
+				if fn := p.Method(it.Named, m); fn != nil && len(fn.Blocks) > 0 && fn.Synthetic == "" {
+					roCheck(c, p, an, fn, "EFX-RO", nil)
+				}
+			}
+		}
+		SizeTables(c, "default")
+	}})
+}
